@@ -88,6 +88,8 @@ def cases(tier, seed, shard, nshards):
             yield {"kind": "groupby", "keys": ks, "ops": ops, "flav": rng.choice(["async_gen", "async_class", "async_class_proxy"]),
                    "key": rng.choice([None, "half", "async"]),
                    "fault": rng.choice([None, None, ["src", rng.randint(1, len(ks) + 1)], ["key", rng.randint(1, len(ks) + 1)]]),
+                   # (what the key fails with: also the very signals of the iteration protocols)
+                   "fault_exc": rng.choice(["Injected", "Injected", "StopAsyncIteration", "StopIteration", "GeneratorExit", "RuntimeError"]),
                    "cancel": rng.random() < 0.35}
         elif name in gen.AGG_NAMES:
             spec = gen.agg_spec(rng, name, maxlen)
@@ -345,12 +347,16 @@ def run_tee(case, stats):
 # groupby
 # ---------------------------------------------------------------------------
 
+_GB_FAULTS = {"Injected": Injected, "StopAsyncIteration": StopAsyncIteration, "StopIteration": StopIteration,
+              "GeneratorExit": GeneratorExit, "RuntimeError": RuntimeError}
+
+
 def run_groupby(case, stats):
     """groupby closed after any prefix of use: also after its source or key failed, and after a cancelled advance."""
     keys = case["keys"]
     fault = case.get("fault")
     viols = []
-    head = f"groupby keys={keys} key={case['key']} flav={case['flav']} ops={case['ops']} fault={fault}"
+    head = f"groupby keys={keys} key={case['key']} flav={case['flav']} ops={case['ops']} fault={fault} {case.get('fault_exc')}"
 
     def one(susp=0, cancel_at=None):
         CTX.reset()
@@ -365,7 +371,7 @@ def run_groupby(case, stats):
         def key_fault():
             calls["n"] += 1
             if fault and fault[0] == "key" and calls["n"] == fault[1]:
-                raise Injected("groupby key")
+                raise _GB_FAULTS[case.get("fault_exc", "Injected")]("groupby key")
 
         async def akey(x):
             key_fault()
@@ -397,7 +403,7 @@ def run_groupby(case, stats):
                             await groups[0].__anext__()
                     except StopAsyncIteration:
                         pass
-                    except Injected:
+                    except (Injected, StopIteration, GeneratorExit, RuntimeError):
                         info["raised"] += 1
             except Cancel:
                 # the consumer's own cancellation handler: it still closes what it opened
